@@ -114,7 +114,7 @@ def atoms_of(f, body=None):
     return seen
 
 
-def truth_table(f, atoms=None, classify=None, max_atoms=10):
+def truth_table(f, atoms=None, classify=None, max_atoms=10, effects=None):
     """{assignment tuple: result}; result = classify(return node, env) or the boolean value returned.
     Raises AnalysisBroken when the function is not a pure predicate of its atoms."""
     g = cfg.FnCFG(f)
@@ -127,6 +127,7 @@ def truth_table(f, atoms=None, classify=None, max_atoms=10):
         b = g.entry
         steps = 0
         res = None
+        eff = []
         while True:
             steps += 1
             if steps > 400:
@@ -138,6 +139,10 @@ def truth_table(f, atoms=None, classify=None, max_atoms=10):
                 n = g.idx.get(e)
                 if n is not None and n["k"] == "ReturnStmt":
                     ret = n
+                if n is not None and effects is not None:
+                    lab = effects(n)
+                    if lab is not None:
+                        eff.append(lab)
             term = g.idx.get(blk.get("term")) if blk.get("term") is not None else None
             if term is not None and term["k"] == "ReturnStmt":
                 ret = term
@@ -166,5 +171,77 @@ def truth_table(f, atoms=None, classify=None, max_atoms=10):
             else:
                 res = "<end>"
                 break
+        if effects is not None:
+            res = (res, tuple(eff))
         table[vals] = res
     return atoms, table
+
+
+def bool_locals(f):
+    """single-assignment bool locals -> initialiser"""
+    from . import bits
+    sa = bits.Bounds(f, False).single_assign()
+    out = {}
+    for n in facts.fn_nodes(f):
+        if n["k"] == "VarDecl" and n.get("c") and n["var"] in sa:
+            t = facts.tyi(f, n.get("t"))
+            if t and t.get("k") == "bool":
+                out[n["var"]] = n["c"][0]
+    return out
+
+
+def expand(f, n, loc, depth=0):
+    """replace references to bool locals by their initialisers (returns a new light tree)"""
+    n0, neg = peel(n)
+    if n0["k"] == "DeclRefExpr" and n0.get("var") in loc and depth < 5:
+        inner = expand(f, loc[n0["var"]], loc, depth + 1)
+        return {"id": -1, "k": "UnaryOperator", "op": "!", "c": [inner]} if neg else inner
+    if n0["k"] == "BinaryOperator" and n0.get("op") in ("&&", "||"):
+        m = {"id": n0["id"], "k": "BinaryOperator", "op": n0["op"],
+             "c": [expand(f, n0["c"][0], loc, depth), expand(f, n0["c"][1], loc, depth)]}
+        return {"id": -1, "k": "UnaryOperator", "op": "!", "c": [m]} if neg else m
+    return n
+
+
+def expr_table(f, expr):
+    """(atoms, {assignment: bool}) for one boolean expression, bool locals expanded"""
+    e = expand(f, expr, bool_locals(f))
+    atoms = []
+    leaves(e, atoms)
+    seen = []
+    for a in atoms:
+        if a not in seen:
+            seen.append(a)
+    table = {}
+    for vals in itertools.product((False, True), repeat=len(seen)):
+        table[vals] = ev(e, dict(zip(seen, vals)))
+    return seen, table
+
+
+def compare(atoms, table, roles, want):
+    """roles: {role name: predicate(atom key)}; want: function(dict role->bool) -> expected result.
+    Returns (ok, message)."""
+    role_of = {}
+    for a in atoms:
+        for r, pred in roles.items():
+            if pred(a):
+                role_of[a] = r
+    missing = [r for r in roles if r not in role_of.values()]
+    if missing:
+        return False, "does not test %s (conditions found: %s)" % (missing, atoms)
+    for vals, res in table.items():
+        env = {}
+        consistent = True
+        for a, v in zip(atoms, vals):
+            r = role_of.get(a)
+            if r is None:
+                continue
+            if r in env and env[r] != v:
+                consistent = False      # two atoms of the same role with different values: not a real situation
+            env[r] = v
+        if not consistent:
+            continue
+        w = want(env)
+        if res != w:
+            return False, "under %s it yields %s, the statement requires %s" % (dict(zip(atoms, vals)), res, w)
+    return True, "%d rows agree" % len(table)
